@@ -43,6 +43,33 @@ CHECKS = {
             '_pc_level equals the number of open coroutines there; all connections are deregistered; all parties finish.',
             'Barriers enabled; bounded programs; fair schedules.',
             'DESIGN.md 2.3, C35'),
+    'C07': ('TLC model check of RoutingMC.tla / ShareProto.tla + every routing configuration run on real worlds and validated by TLC against RoutingTrace.tla',
+            'Design: for every senders/receivers pair and dict graph (3-4 parties) the per-party views transfer() derives match the graph; every receiver subset/threshold of output obtains the value. Code: every routing configuration for m <= 4 (sampled m <= 7) of transfer/input/output executed on real worlds; every party\'s result equals the specified one.',
+            'Bounded m; payload identity by equality+type; empty list counts as nothing for list forms of transfer.', 'DESIGN.md 2.6, C07'),
+    'C11': ('TLC model check of ShareProto.tla (Consistent for all dealer polynomials / uci) + god-view shares of real runs interpolated by TLC (SharesTrace.tla)',
+            'Design: in the pipeline output(reshare(a op b)) the shares of every value lie on a polynomial of its degree bound with the value as constant term, for every coefficient tuple and uci. Code: at the end of real programs over small fields (m in 2..7, PRSS on/off) the m shares of every live value interpolate to degree <= t with constant term = opened value.',
+            'Fields <= 10 bits; shares read after completion of all operations.', 'DESIGN.md 2.6, C11'),
+    'C12': ('TLC exhaustive check of ShamirMC.tla + real random_split/recombine (list and NumPy) driven through every coefficient tuple and validated by TLC (ShamirTrace.tla)',
+            'Exhaustive over secrets, coefficient tuples, subsets >= t+1 and evaluation points for GF(5),GF(7),GF(11),GF(13),GF(2^2),GF(2^3),GF(3^2) and (m,t) up to (7,3) in the model; the real functions reproduce Split/Lagrange on every enumerated case (scripted randbelow).',
+            'Larger fields not decided by TLC (32-bit integers).', 'DESIGN.md 2.5, C12'),
+    'C13': ('TLC exact uniformity check (ShamirMC.ViewUniform) + binding of random_split to Split and randbelow call pattern validated by TLC',
+            'Exact: every coalition view is produced by the same number of coefficient tuples for every secret (exhaustive over dealer randomness); the real random_split is Split on those fields and draws exactly t values per secret, each over the whole field.',
+            'secrets.randbelow uniform and independent.', 'DESIGN.md 2.5, C13'),
+    'C14': ('TLC (ShareProto, ShamirMC) + every runtime dealing call of real programs recorded and validated by TLC (SharesTrace.DealOK)',
+            'Every random_split call made by the runtime in the recorded programs (input, resharing, no-PRSS randomness/bits/conversion) uses threshold t, exactly t draws per secret over the whole field; with 64-bit fields no dealt secret appears as a payload on the dealer\'s wires.',
+            'Bounded corpus; clear-text comparison only for fields > 2^40.', 'DESIGN.md 2.6, C14'),
+    'C15': ('TLC check of PrssMC.tla over all/sparse PRF output assignments + real pseudorandom_share(_zero) and NumPy variants with stub PRFs validated by TLC (PrssTrace.tla)',
+            'Model: degree <= t with secret = sum of PRF outputs, zero-shares degree <= 2t secret 0, for every assignment (small cases) or every assignment with <= 2 nonzero entries. Code: list and array variants equal Share/ZeroShare on enumerated/sampled PRF outputs, batch sizes 0,1,3, and interpolate as stated.',
+            'PRF outputs arbitrary field elements.', 'DESIGN.md 2.5, C15'),
+    'C16': ('TLC model check of Keys.tla (all handshake orders, m <= 5; simulation for m = 6,7) + terminal state and client order compared with real runtimes after real start() under byte-level schedules',
+            'All orders of connection set-up/handshake completion in the model; the real key maps after start() equal the model\'s unique terminal state for every (m,t) under byte-by-byte, header-size and random chunkings.',
+            'm = 6, 7 by TLC simulation.', 'DESIGN.md 2.2, C16'),
+    'C19': ('TLC (ShareProto.OnlyReceiversHear, RoutingMC) + per-operation message attribution and with/without byte difference on real worlds validated by TLC (RoutingTrace.HearOK/QuietOK)',
+            'For every receiver subset (m <= 4, sampled m <= 7), thresholds t..2t, five secure types and all graph forms: frames written inside the operation go only to receivers from their th predecessors / along arcs; non-receivers get zero extra bytes; for secure floats to a subset non-receivers get dealing messages only.',
+            'Attribution by operation window with nothing else pending.', 'DESIGN.md 2.6, C19'),
+    'C36': ('TLC model check of PCSchedCrash.tla (every crash point/prefix) + fault enumeration on real worlds',
+            'Every schedule position with bytes in flight x victim x cut position (frame/header boundaries, inside frames) x EOF/error close for bounded real programs: every output a survivor completes equals the reference; model: label discipline and consumed-were-sent survive any crash.',
+            'One crash per run; bounded programs.', 'DESIGN.md 2.4, C36'),
 }
 NA_REASON = 'check not built yet in this session (planned, see DESIGN.md section 3); not claimed'
 
@@ -60,7 +87,7 @@ def main():
             'evidence_file': f'evidence/{pid}.json',
             'replay_cmd_template': './vcheck --replay {path}',
             'engine': 'tlc+harness',
-            'level_claimed': {'category': 'model_checking', 'text': text, 'design_ref': ref},
+            'level_claimed': {'category': 'fault_enumeration' if pid == 'C36' else 'model_checking', 'text': text, 'design_ref': ref},
             'level_note': note,
             'technique': tech,
         })
